@@ -21,8 +21,8 @@ ASSUMPTIONS = ["'?' and '[...]' glob syntax is not documented and not generated;
                'the result of a list specifier is compared as a set (the union)']
 FLOORS = {'*': {'spec.compared': 2000, 'remove.compared': 100}}
 N = {'quick': 24, 'thorough': 800}
-IDS = ['a', 'ab', 'a-b', 'b', 'abc']
-VERS = ['1', '1.0', '2', '1.0+x', '1-beta']
+IDS = ['a', 'ab', 'a-b', 'b', 'abc', 'a_b', 'A', 'aXb', 'a%']
+VERS = ['1', '1.0', '2', '1.0+x', '1-beta', '1_0', '1%', '1x0']
 
 
 def plan(tier, seed):
@@ -52,7 +52,7 @@ def run_case(case, rec):
     n = r.randint(3, 8)
     pairs = set()
     while len(pairs) < n:
-        pairs.add((r.choice(IDS[:3] if r.random() < 0.6 else IDS), r.choice(VERS)))
+        pairs.add((r.choice(IDS[:3] if r.random() < 0.4 else IDS), r.choice(VERS[:5] if r.random() < 0.6 else VERS)))
     pairs = list(pairs)
     r.shuffle(pairs)
     prof = doc.Profile(max_entries=1, max_synsets=1, hostile=0, relations=False)
@@ -68,7 +68,8 @@ def run_case(case, rec):
             ids = sorted({p[0] for p in pairs})
             vers = sorted({p[1] for p in pairs})
             items = set(ids) | {f'{i}:{v}' for i, v in pairs} | {f'{i}:*' for i in ids} | {f'*:{v}' for v in vers}
-            items |= {'*', 'a*:*', '*:1*', 'a*:1*', '*b:*', 'a:1*', '*:*', 'zz', 'zz:1', 'a:9', '*:9', 'ab:*x'}
+            items |= {'*', 'a*:*', '*:1*', 'a*:1*', '*b:*', 'a:1*', '*:*', 'zz', 'zz:1', 'a:9', '*:9', 'ab:*x', 'A', 'a', 'A:*', 'AB', 'a_b', 'a_b:*',
+                      'a%', 'a%:*', '*:1_0', '*:1%', 'a_b:1_0', 'B:1'}
             items |= {f'{r.choice(ids)}:{r.choice(VERS)}' for _ in range(3)}
             items = sorted(items)
             specs = list(items)
